@@ -1,9 +1,172 @@
-(* Props/C18.v -- property theorems for C18.  Only statements, each closed by [exact]. *)
+(* Props/C18.v -- property theorems for C18 (the legacy-console stream hands over
+   each run once with 16-colour fg/bg).  Only statements, each closed by [exact].
+
+   Vocabulary (Proofs/WinconConsole, Proofs/WinconSpecRuns):
+     ws_wf s        the stream's parser is in a state the parser can be in (related
+                    to a state of the specification machine by C02's simulation
+                    relation R); ws_new is, every operation keeps it (also after an
+                    error): c18_ops_total
+     run_call (style, txt) = mkCC (cap_opt (s_fg style)) (cap_opt (s_bg style))
+                                  (str_bytes txt) (inl (length (str_bytes txt)))
+     accepted calls        the bytes the console accepted: [firstn n data] of every
+                           [inl n] call, in order
+     accepted_col calls    the same, every byte with the fg/bg it was written in
+     runs_bytes / runs_col the UTF-8 bytes of a run list / with the capped colours
+     err_from new k        new = pre ++ [last] and [last] answered [inr k], k not
+                           Interrupted, or answered [inl 0] and k = WriteZero
+     byte_clean b          b <> 27 /\ (b < 32 -> b = 9 \/ b = 10 \/ b = 12 \/ b = 13) *)
 From Coq Require Import NArith List Bool.
-From AV Require Import Generated.Table Spec.Vt Proofs.TableFacts.
+From AV Require Import Generated.Table Spec.Utf8 Spec.Vt Spec.Sgr Spec.Io Model.Base Model.Parser
+  Model.Wincon Model.Stream Model.WinconStream
+  Proofs.TableFacts Proofs.ParserSim Proofs.WinconRuns Proofs.WinconSpecRuns Proofs.WinconConsole.
 Import ListNotations.
 Local Open Scope N_scope.
 
 Theorem c18_table_is_williams :
   forall s b, b < 256 -> trans_matches s b = true.
 Proof. exact table_is_williams. Qed.
+
+(* write_all over an accept-all console: Ok, and the new console calls are exactly
+   the runs extract_next yields for the buffer from the same state -- every run once,
+   in order, whole, colours capped *)
+Theorem c18_write_all_hands_over :
+  forall s buf c,
+  ws_wf s -> Forall (fun b => b < 256) buf -> con_script c = [] ->
+  exists its p' cap',
+    extract_next buf (ws_parser s) (ws_capture s) = Some (its, p', cap') /\
+    wc_write_all s buf c
+      = Some (mkWS p' cap', mkCon [] (con_calls c ++ map run_call its) (con_flushes c), ROk).
+Proof. exact write_all_hands_over. Qed.
+
+(* write_all over ANY console script: total (never a panic); on Ok the bytes the
+   console accepted, in order and each with the colours it was written in, are the
+   bytes of the runs with their capped colours (short writes are completed, nothing
+   is repeated or dropped); on Err k they are a prefix of that and k comes from the
+   console's last answer (or is WriteZero after an accepted count of 0) *)
+Theorem c18_write_all_scripted :
+  forall s buf c,
+  ws_wf s -> Forall (fun b => b < 256) buf ->
+  exists its p' cap' s1 c1 r new,
+    extract_next buf (ws_parser s) (ws_capture s) = Some (its, p', cap') /\
+    wc_write_all s buf c = Some (s1, c1, r) /\
+    con_calls c1 = con_calls c ++ new /\ con_flushes c1 = con_flushes c /\
+    ((r = ROk /\ s1 = mkWS p' cap' /\ accepted_col new = runs_col its /\ accepted new = runs_bytes its)
+     \/ (exists k, r = RErr k /\
+           (exists rest, accepted_col new ++ rest = runs_col its) /\
+           (exists rest, accepted new ++ rest = runs_bytes its) /\
+           err_from new k)).
+Proof. exact write_all_scripted. Qed.
+
+(* the retry loop of one run: every call carries the run's colours and a suffix of
+   its bytes; accepted bytes = the run (Ok) or a prefix (Err) *)
+Theorem c18_run_loop :
+  forall fuel c fg bg buf,
+  (length (con_script c) < fuel)%nat ->
+  exists new,
+    con_calls (fst (wc_run_loop fuel c fg bg buf)) = con_calls c ++ new /\
+    con_flushes (fst (wc_run_loop fuel c fg bg buf)) = con_flushes c /\
+    (length (con_script (fst (wc_run_loop fuel c fg bg buf))) <= length (con_script c))%nat /\
+    Forall (fun cc => cc_fg cc = fg /\ cc_bg cc = bg /\ exists pre, buf = pre ++ cc_data cc) new /\
+    match snd (wc_run_loop fuel c fg bg buf) with
+    | inl _ => accepted new = buf
+    | inr k => (exists rest, accepted new ++ rest = buf) /\ err_from new k
+    end.
+Proof. exact run_loop_spec. Qed.
+
+(* write reports Ok(len buf) -- and then all of buf's text was handed over -- or an
+   error; never a partial count *)
+Theorem c18_write_reports_all_or_error :
+  forall s buf c,
+  ws_wf s -> Forall (fun b => b < 256) buf ->
+  exists its p' cap' s1 c1 r new,
+    extract_next buf (ws_parser s) (ws_capture s) = Some (its, p', cap') /\
+    wc_write s buf c = Some (s1, c1, r) /\
+    con_calls c1 = con_calls c ++ new /\
+    ((r = ROkN (N.of_nat (length buf)) /\ s1 = mkWS p' cap' /\
+      accepted_col new = runs_col its /\ accepted new = runs_bytes its)
+     \/ (exists k, r = RErr k /\ (exists rest, accepted new ++ rest = runs_bytes its) /\ err_from new k)).
+Proof. exact write_reports_all_or_error. Qed.
+
+Theorem c18_write_never_partial :
+  forall s buf c s1 c1 n,
+  ws_wf s -> Forall (fun b => b < 256) buf ->
+  wc_write s buf c = Some (s1, c1, ROkN n) -> n = N.of_nat (length buf).
+Proof. exact write_never_partial. Qed.
+
+(* colours are capped to the 16-colour palette *)
+Theorem c18_cap_colour :
+  (forall a, cap_wincon_color (CAnsi a) = Some a) /\
+  (forall i, i < 16 -> cap_wincon_color (CIdx i) = Some i) /\
+  (forall i, 16 <= i -> cap_wincon_color (CIdx i) = None) /\
+  (forall r g b, cap_wincon_color (CRgb r g b) = None).
+Proof. exact cap_colour. Qed.
+
+(* no byte of a run's text is ESC, and every byte below 0x20 is TAB, LF, FF or CR:
+   the text consists of code points the parser printed (>= 0x20 from Ground, a
+   well-formed multi-byte character >= 0x80, or U+FFFD) and whitespace executes;
+   for any input *)
+Theorem c18_no_escape_bytes :
+  forall input, Forall (fun b => b < 256) input ->
+  exists its p c,
+    extract_next input parser_new capture_default = Some (its, p, c) /\
+    Forall (fun r => Forall byte_clean (str_bytes (snd r))) its.
+Proof. exact no_escape_bytes. Qed.
+
+(* ... hence whatever operations are applied to a new stream over whatever console
+   script, every byte of every write_colored call is clean *)
+Theorem c18_no_escape_stream :
+  forall script ops s1 c1 rs,
+  Forall op_bytes_lt ops ->
+  wc_run_ops ws_new (console_of script) ops = Some (s1, c1, rs) ->
+  Forall (fun cc => Forall byte_clean (cc_data cc)) (con_calls c1).
+Proof. exact stream_no_escape. Qed.
+
+(* no sequence of operations panics, and the state stays well-formed *)
+Theorem c18_ops_total :
+  forall ops s c,
+  ws_wf s -> Forall op_bytes_lt ops ->
+  exists s1 c1 rs, wc_run_ops s c ops = Some (s1, c1, rs) /\ ws_wf s1.
+Proof. exact ops_total. Qed.
+
+(* write_vectored = write of the first non-empty buffer *)
+Theorem c18_vectored :
+  forall s c bufs, wc_op s c (OWriteVectored bufs) = wc_write s (first_nonempty bufs) c.
+Proof. exact vectored_is_write. Qed.
+
+(* write_fmt = write_all of the fragments one after the other, stopping at the first
+   error ... *)
+Theorem c18_write_fmt :
+  forall frags s c, wc_write_fmt s frags c = write_all_seq s frags c.
+Proof. exact write_fmt_is_seq. Qed.
+
+(* ... and over an accept-all console, from a state without pending text, it hands
+   over the runs of the fragments, one call each, which as coloured bytes is what
+   write_all of the concatenation hands over (with C03's chunking theorem) *)
+Theorem c18_write_fmt_hands_over :
+  forall frags s c,
+  ws_wf s -> c_printable (ws_capture s) = [] -> c_ready (ws_capture s) = None ->
+  Forall (fun b => b < 256) (concat frags) -> con_script c = [] ->
+  exists itss its p' cap' c1,
+    extract_chunks frags (ws_parser s) (ws_capture s) = Some (itss, p', cap') /\
+    extract_next (concat frags) (ws_parser s) (ws_capture s) = Some (its, p', cap') /\
+    wc_write_fmt s frags c = Some (mkWS p' cap', c1, ROk) /\
+    con_calls c1 = con_calls c ++ map run_call (concat itss) /\
+    accepted_col (map run_call (concat itss)) = runs_col its.
+Proof. exact write_fmt_hands_over. Qed.
+
+Theorem c18_ws_new_wf : ws_wf ws_new.
+Proof. exact ws_new_wf. Qed.
+
+(* non-vacuity: "hello ESC[31m world" with the script [Accept 2]: the first run needs
+   two calls (2 bytes, then the remaining 4 with the script exhausted), the second
+   run goes out in red *)
+Theorem c18_example :
+  exists s1,
+  wc_write_all ws_new [104; 101; 108; 108; 111; 32; 27; 91; 51; 49; 109; 32; 119; 111; 114; 108; 100]
+               (console_of [Accept 2])
+  = Some (s1,
+          mkCon [] [mkCC None None [104; 101; 108; 108; 111; 32] (inl 2);
+                    mkCC None None [108; 108; 111; 32] (inl 4);
+                    mkCC (Some 1) None [32; 119; 111; 114; 108; 100] (inl 6)] 0,
+          ROk).
+Proof. vm_compute. eexists. reflexivity. Qed.
